@@ -241,13 +241,13 @@ def multiline_test(line: str) -> bool:
     test if the current line is a multiline with "=" at the end
     :param line: 'O1 3 -0.01453 1.66590 0.10966 11.00 0.05 ='
     """
-    if line.rfind('=') > -1:
-        # A '=' character in a rem line is not a line break!
-        if line.startswith("REM") and not dsr_regex.match(line):
-            return False
-        return True
-    else:
+    # A '=' character in a rem or titl line is not a line break!
+    if line[:3].upper() == 'REM' and not dsr_regex.match(line):
         return False
+    if line[:4].upper() == 'TITL':
+        return False
+    # Everything after '!' is a comment, also a '=' character:
+    return '=' in line.split('!')[0]
 
 
 class TextLine:
